@@ -102,7 +102,7 @@ pub struct SimScheduler {
 /// Scheduling steps without a single progress event (queue admit/take/close, token, barrier,
 /// contig, exit, ...) after which a run is declared livelocked. Polling sleeps do not count as
 /// progress. The largest run observed makes < 1M steps in total.
-pub const NO_PROGRESS_STEPS: u64 = 5_000_000;
+pub const NO_PROGRESS_STEPS: u64 = 2_000_000;
 
 impl SimScheduler {
     pub fn new(spec: &SchedSpec) -> (Self, Arc<Mutex<Trace>>) {
